@@ -255,15 +255,6 @@ Definition env_closed (E : env) : bool :=
                     | _ => true
                     end) E.
 
-Fixpoint jval_wf (j : jval) : bool :=
-  match j with
-  | JList l => (fix go (l : list jval) : bool := match l with [] => true | x :: r => jval_wf x && go r end) l
-  | JObj kvs => negb (has_dup (map fst kvs))
-                && (fix go (l : list (name * jval)) : bool :=
-                      match l with [] => true | (_, x) :: r => jval_wf x && go r end) kvs
-  | _ => true
-  end.
-
 Fixpoint lit_strings (l : lit) : list bytes :=
   match l with
   | LString s => [s]
@@ -489,7 +480,7 @@ Definition check (c : sexp) : sexp :=
                              ++ flat_map (fun p => jval_strings (snd p)) raw in
               if negb (env_closed E && forallb (fun ad => sty_closed E (in_type (snd ad))) argdefs) then v_bad "env-not-closed"
               else if negb (env_ok E && forallb (fun ad => default_ok E (snd ad)) argdefs) then v_bad "env-not-ok"
-              else if negb (forallb (fun p => jval_wf (snd p)) raw && negb (has_dup (map fst raw))) then v_bad "variables-not-wf"
+              else if negb (forallb (fun p => jval_ok (snd p)) raw && negb (has_dup (map fst raw))) then v_bad "variables-not-wf"
               else if negb (forallb (fun s => ahas s T) strings) then v_bad "dt-table-incomplete"
               else if existsb (fun d => match vd_default d with Some l => match lit_vars l with [] => false | _ => true end | None => false end) defs
                    then v_bad "variable-in-default"
